@@ -85,8 +85,8 @@ var props = map[string]tierCfg{
 	"C14": {QuickRuns: 16000, QuickBudgetS: 40, ThoroughS: 600, Level: "exploration"},
 	"C15": {QuickRuns: 1600, QuickBudgetS: 40, ThoroughS: 600, Level: "fault_enumeration"},
 	"C16": {QuickRuns: 32000, QuickBudgetS: 40, ThoroughS: 600, Level: "exploration"},
-	"C19": {QuickRuns: 9000, QuickBudgetS: 40, ThoroughS: 600, Race: true, RaceQuickRuns: 1800, Level: "exploration"},
-	"C20": {QuickRuns: 30000, QuickBudgetS: 40, ThoroughS: 600, Race: true, RaceQuickRuns: 9000, Level: "exploration"},
+	"C19": {QuickRuns: 8000, QuickBudgetS: 40, ThoroughS: 600, Race: true, RaceQuickRuns: 1600, Level: "exploration"},
+	"C20": {QuickRuns: 26000, QuickBudgetS: 40, ThoroughS: 600, Race: true, RaceQuickRuns: 8000, Level: "exploration"},
 }
 
 type violation struct {
